@@ -27,7 +27,8 @@ CHECKS = {
     "C05": dict(
         text="Same exhaustive exploration of Broker.tla with invariants MarginInv and NlvDecomposition; at every observation "
              "point of every replayed history the code's posted margins, the decomposition cash + margins + fully-paid "
-             "liquidation value = reported NLV and the reported weights are compared with the specification; an extra model "
+             "liquidation value = reported NLV, the cash balance itself (what was swept to or from cash) and the reported weights are "
+             "compared with the specification; an extra model "
              "covers the broker's epsilon rule (residual positions dropped); simulated behaviours and TLC-validated recorded "
              "traces (BrokerTrace.tla, margins at observation points) as for C01.",
         design="5 C05", technique="TLA+ spec model-checked with TLC; model states and simulated behaviours replayed into the "
@@ -130,7 +131,9 @@ CHECKS["C06"] = dict(
          "(rate, markup) regimes and balances of both signs and two magnitudes, checking SplitInvariant, ClockStartsAtFirstCall and "
          "the action properties QueryPure, NoDoubleAccrual, RejectEarlier; every behaviour is replayed into a real Broker and each "
          "returned amount and balance is compared with the closed form evaluated with 50-digit decimals. A second model "
-         "(Broker.tla, whole years, exact rationals) has a margined position open: posted margin earns nothing.",
+         "(Broker.tla, whole years, exact rationals) has a margined position open: posted margin earns nothing. The same "
+         "specification is also instantiated with a time unit of 1/4 s (sub-second stamps), every third behaviour uses time-zone "
+         "aware instants whose UTC offset changes, and EnvFull.tla models feed a published rate path that falls to zero.",
     design="5 C06", technique="TLA+ spec with symbolic exponents model-checked with TLC; every behaviour replayed into the real "
                               "Broker, closed form evaluated in 50-digit decimal", note="Constant rate per behaviour; 1e-9 relative "
                               "tolerance; pow() itself is trusted beyond that.")
@@ -152,7 +155,8 @@ CHECKS["C09"] = dict(
     text="EnvFull.tla with leveraged / short targets and price paths that take NLV to exactly 0 and below, in the step's bar or "
          "inside the latency window, with and without recovery: TLC checks BrokeNeverTrades and DoneIsAbsorbing (action "
          "properties), BrokeEndsEpisode and RuinStepReturnsDone; replays compare outcome class, done flag, absence of any trade or "
-         "track entry for an insolvent decision, refusal after the end, and both valuation modes on a copy of the broker; models "
+         "track entry for an insolvent decision, refusal after the end (after a step in which an insolvent decision raised, one more "
+         "call is made and must change nothing, not even the clock), and both valuation modes on a copy of the broker; models "
          "with a short position under a spread, two margined contracts, actions in numbers of contracts, and a user feature that "
          "values the account on every quote. The "
          "ruin-step clause is a recorded known finding (known_findings.json).",
